@@ -4,43 +4,46 @@ id bytes per key kind (which suite OID, or the seed literal), the `Ciphertext` v
 serde tag).  The Lean model builds the AD from the generated orders."""
 import re
 from extract import read, strip_comments, enum_variants, Fail
-from crypto_c34 import lean_bytes, fn_body, call_args, map_items
+from crypto_c34 import lean_bytes, fn_body, hash_call, map_items, advisory, advisory_comment, lean_bool, ADVISORY
 
 KINDS = ["Aead", "Decap", "Mac", "Prk", "Seed", "Signing"]
 
 
 def gen():
+    n0 = len(ADVISORY)
     L = ["namespace AranyaV.Gen.C36", ""]
     rel = "crates/aranya-crypto/src/default.rs"
     src = strip_comments(read(rel))
     wb = fn_body(src, "wrap_secret", rel)
     ub = fn_body(src, "unwrap_secret", rel)
-    wtag, witems = call_args(wb, "S::tuple_hash", rel)
-    utag, uitems = call_args(ub, "S::tuple_hash", rel)
+    wtag, witems = hash_call(src, "wrap_secret", "S::tuple_hash", rel)
+    utag, uitems = hash_call(src, "unwrap_secret", "S::tuple_hash", rel)
     if wtag != utag:
         raise Fail(f"{rel}: wrap_secret and unwrap_secret use different AD tags {wtag!r} / {utag!r}")
     worder = map_items(witems, {"T::ID.as_bytes()": "algId", "id.as_bytes()": "keyId"}, rel, "wrap_secret AD")
     uorder = map_items(uitems, {"T::ID.as_bytes()": "algId", "key.id.as_bytes()": "keyId"}, rel, "unwrap_secret AD")
     wbn = re.sub(r"\s+", "", wb)
     ubn = re.sub(r"\s+", "", ub)
-    # the wrapped key stores the id it was given, the AD is what is passed to seal/open
+    # literal statement shapes: advisory (the harness decides the behaviour: primitive-level AD
+    # confirmation, per-field modifications, cross-kind and retagged unwraps)
+    shape = True
     if "letid=*id.as_ref();" not in wbn or "Ok(WrappedKey{id,nonce:nonce.into_inner(),ciphertext:secret,tag,})" not in wbn:
-        raise Fail(f"{rel}: wrap_secret no longer stores (id, nonce, ciphertext, tag)")
+        shape = advisory(f"{rel}: wrap_secret does not literally store (id, nonce, ciphertext, tag)")
     if "self.aead.seal_in_place(nonce.as_ref(),secret.as_bytes_mut(),&muttag,ad.as_bytes(),)?" not in wbn:
-        raise Fail(f"{rel}: wrap_secret: seal_in_place(nonce, secret, tag, ad) not found")
+        shape = advisory(f"{rel}: wrap_secret: literal seal_in_place(nonce, secret, tag, ad) not found")
     if "self.aead.open_in_place(key.nonce.as_ref(),data.as_bytes_mut(),&key.tag,ad.as_bytes(),)?" not in ubn:
-        raise Fail(f"{rel}: unwrap_secret: open_in_place(nonce, data, tag, ad) not found")
+        shape = advisory(f"{rel}: unwrap_secret: literal open_in_place(nonce, data, tag, ad) not found")
     for k in KINDS:
         pat = f"(AlgId::{k}(_),Ciphertext::{k}(data))=>" if k != "Seed" else "(AlgId::Seed(()),Ciphertext::Seed(data))=>"
         if pat not in ubn:
-            raise Fail(f"{rel}: unwrap_secret: match arm for kind {k} not found")
+            shape = advisory(f"{rel}: unwrap_secret: literal match arm for kind {k} not found")
         if f"RawSecret::{k}(sk)=>Ciphertext::{k}(" not in wbn:
-            raise Fail(f"{rel}: wrap_secret: RawSecret::{k} is no longer stored as Ciphertext::{k}")
+            shape = advisory(f"{rel}: wrap_secret: RawSecret::{k} is not literally stored as Ciphertext::{k}")
     if "_=>{returnErr(WrongKeyType{" not in ubn:
-        raise Fail(f"{rel}: unwrap_secret: the catch-all WrongKeyType arm is gone")
+        shape = advisory(f"{rel}: unwrap_secret: literal catch-all WrongKeyType arm not found")
     n_arms = len(re.findall(r"\(AlgId::\w+\((?:_|\(\))\),Ciphertext::\w+\(data\)\)=>", ubn))
     if n_arms != 6:
-        raise Fail(f"{rel}: unwrap_secret: expected exactly 6 (AlgId, Ciphertext) arms, found {n_arms}")
+        shape = advisory(f"{rel}: unwrap_secret: expected exactly 6 literal (AlgId, Ciphertext) arms, found {n_arms}")
     vs = [n for n, _ in enum_variants(read(rel), "Ciphertext", rel)]
     if vs != KINDS:
         raise Fail(f"{rel}: Ciphertext variants changed: {vs}")
@@ -57,8 +60,8 @@ def gen():
           "deriving DecidableEq, Repr", "",
           "def Kind.tag : Kind → Nat", *[f"  | .{k.lower()} => {i}" for i, k in enumerate(KINDS)], "",
           "/-- `unwrap_secret` matches `(T::ID, Ciphertext variant)` kind by kind and otherwise returns",
-          "`WrongKeyType` (checked against the source) -/",
-          "def unwrapKindMatch : Bool := true", ""]
+          "`WrongKeyType` (advisory literal comparison; cross-kind and retag unwraps of the harness decide) -/",
+          f"def unwrapKindMatch : Bool := {lean_bool(shape)}", ""]
     # ---- AlgId bytes
     rel = "crates/aranya-crypto/src/engine.rs"
     src = strip_comments(read(rel))
@@ -101,7 +104,7 @@ def gen():
         if alg not in oid_order:
             raise Fail(f"{rel}: kind {k} takes its OID from unknown suite member {alg}")
         L.append(f"  | .{k.lower()} => some {oid_order.index(alg)}  -- CS::{alg}")
-    L += ["", "end AranyaV.Gen.C36"]
+    L += [""] + advisory_comment(n0) + ["", "end AranyaV.Gen.C36"]
     return "\n".join(L) + "\n"
 
 
